@@ -4023,3 +4023,14 @@ def run(chk):
     _l.check_cache_keys(chk, U.ADV, "PoloidalAdvection")
     chk.floor("F1-", 8)
     chk.floor("E", 6)
+
+
+# --- engine I (pgverif/oneshot.py): one-shot iterators handed out by the grid accessors are walked once per creation and never memoised.
+# Run first so that its reports do not depend on the idiom recognition of the rules above.
+_run_before_engine_I = run
+
+
+def run(chk):  # noqa: F811
+    from ..oneshot import attach
+    attach(chk, [(U.ADV, {"PoloidalAdvection"})])
+    _run_before_engine_I(chk)
